@@ -611,6 +611,10 @@ func runC03(c *Ctx) {
 	checkWriteFailureLatched(c, "R6")
 	// R7 (shared with C02.R11): the in-flight table is keyed by the request packet's id()
 	checkIDMethods(c, "R7")
+	// R8 (shared with C06.R18): a request goes out under its id only if the length word does not overwrite it
+	checkHeaderReservesLengthPrefix(c, "R8")
+	// R9 (shared with C08.O3): replies are cut out of the stream at the right places — the length word is read completely
+	c.withRule("R9", func() { checkFrameLimits(c, newZWorld(p)) })
 }
 
 // sameValue: two SSA values denote the same runtime value in one function activation
